@@ -1,5 +1,6 @@
 import PilotaModel.Lemmas.UnsafeW
 import PilotaModel.Lemmas.UnsafeR
+import PilotaModel.Lemmas.MsgSim
 import PilotaModel.Props.C01
 /-
   C11 — the unchecked binary codec equals the checked one within its contract.
@@ -112,6 +113,14 @@ theorem ur_consumed (s : UR) (hv : s.idx ≤ s.bs.length) :
   ⟨fun w n r h => readI_sim s hv w n r h, fun n r h => readU_sim s hv 8 n r h, fun b r h => peek_sim s hv 16 b r h,
    fun b r h => readBytes_sim s hv b r h, fun x r h => readFieldBegin_sim s hv x r h,
    fun x r h => readListBegin_sim s hv x r h, fun x r h => readMapBegin_sim s hv x r h⟩
+
+/-- message envelope: whenever the checked `read_message_begin` accepts, the unchecked one returns the same
+(name, type, seqid) without leaving the buffer, accounts for the same bytes, and re-anchors (`index = 0`). -/
+theorem ur_msg_eq_checked (s : UR) (hv : s.idx ≤ s.bs.length) (x : Bytes × Nat × Int) (r : Bytes)
+    (h : Msg.readBeginBin .be s.rest = .ok (x, r)) :
+    ∃ s', Unsafe.readMessageBegin s = .ok (x, s') ∧ s'.rest = r ∧ s'.idx = 0 ∧ s'.pos + r.length = s.pos + s.rest.length := by
+  obtain ⟨s', h1, g, h0⟩ := readMessageBegin_sim s hv x r h
+  exact ⟨s', h1, g.rest, h0, g.pos⟩
 
 /-- a script of reads on ONE reader instance (what a decoder of several values does). -/
 def readAll : List TType → UR → Out (List TVal × UR)
